@@ -111,6 +111,12 @@ def build_universe(seed, tier):
            Seq('vec', Adt(byname['KN1'], [], [])), Array(Adt(byname['KN1'], [], []), 3), Seq('bs', Adt(byname['KN1'], [], [])),
            Adt(byname['KC2'], [], [7, 300]), Adt(byname['KC2'], [], [44, 7]),
            Adt(byname['KC3'], [], [0x0123456789abcdef]), Adt(byname['KC3'], [], [(1 << 64) + 0x0123456789abcdef])]
+    # round-5 stress instances
+    for t in st:
+        if isinstance(t, Adt) and t.d.name in ('KZ9', 'KD6'):
+            t.known = ('C01', 'C02', 'C03', 'C04', 'C06', 'C07', 'C14', 'C18')     # alignment 128: beyond what the loaders support
+    st += [Seq('vec', Adt(byname['KZ10'], [], [])), Adt(byname['KD5'], [Seq('vec', Adt(byname['KZ10'], [], []))], [])]
+    u.slice_elems = list(u.slice_elems) + [Adt(byname['KZ10'], [], []), Adt(byname['KZE2'], [], []), Adt(byname['KZ8'], [], [])]
     u.corpus_start = len(u.types)
     u.corpus_rust = [t.rust() for t in c.types] + [t.rust() for t in st]
     seen = set(t.rust() for t in u.types)
@@ -192,6 +198,12 @@ def build_universe(seed, tier):
         w.known = ('C07', 'C12')
         if w.rust() not in seen:
             seen.add(w.rust()); u.types.append(w)
+    # alignments above 64 are beyond what the loaders support: such types (KZ9, KD6 and their near-miss mutants) are
+    # exercised only by the checks that do not load files or place buffers at 64-aligned addresses
+    for t in u.types:
+        for x in t.walk():
+            if isinstance(x, Adt) and x.d.align_attr > 64 and not x.known:
+                x.known = ('C01', 'C02', 'C03', 'C04', 'C06', 'C07', 'C14', 'C18')
     # generic arguments: phantom data of different types; all instances of one generic definition, pairwise
     ph = [add(Phantom(Prim('u8'))), add(Phantom(Prim('i8'))), add(Phantom(Str())), add(Seq('vec', Phantom(Prim('u8')))), add(Seq('vec', Phantom(Str())))]
     for (a, b) in ((ph[0], ph[1]), (ph[0], ph[2]), (ph[3], ph[4])):
